@@ -187,7 +187,7 @@ func init() {
 		in := fr.in
 		msg := in.concreteString(args[1], "vAssert msg")
 		label := msg
-		if i := strings.IndexByte(msg, ':'); i > 0 {
+		if i := strings.Index(msg, ": "); i > 0 {
 			label = msg[:i]
 		}
 		if in.inReplay() {
